@@ -2,69 +2,76 @@ import Ecal.Lemmas.LexerInv
 namespace Ecal.Lex
 open Ecal.Lex.Spec
 
-theorem symbolBytes_clean : ∀ p ∈ symbolBytes, ∀ b ∈ p.1, b ≠ 10 ∧ b < 128 := by decide
-
-theorem isSym_clean {k : List Nat} (h : isSym k = true) : ∀ b ∈ k, b ≠ 10 ∧ b < 128 := by
-  simp only [isSym, lookupTab, Option.isSome_map, List.find?_isSome] at h
-  obtain ⟨p, hp, hk⟩ := h
-  have : p.1 = k := by simpa using hk
-  rw [← this]; exact symbolBytes_clean p hp
-
-theorem runeKey_clean {r : Option Nat} (h : ∀ b ∈ runeKey r, b ≠ 10 ∧ b < 128) : ∃ c, r = some c ∧ c ≠ 10 := by
-  cases r with
-  | none => have := (h 0xEF (by simp [runeKey])).2; omega
-  | some c =>
-    refine ⟨c, rfl, ?_⟩
-    intro h10; subst h10
-    have := (h 10 (by simp [runeKey, lowerByte])).1
-    exact this rfl
-
-theorem blank_ne10 {r : Option Nat} (h : blank r = false) : ∃ c, r = some c ∧ c ≠ 10 := by
-  cases r with
-  | none => simp [blank] at h
-  | some c => exact ⟨c, rfl, nonblank_ne10 (by simpa [blank] using h)⟩
-
-/-- result of the text loop: either it backed up already (`early`) or `r` is still pending -/
-theorem text_loop (fuel : Nat) : ∀ (l0 l : L) (r : Option Nat), Scan l0 l r →
-    let res := lexTextBlock.loop fuel l r
-    Blk l0 (if res.2.2 then res.1 else if res.2.1 != none then res.1.backup 0 else res.1) := by
+/-- tracked loop of the string lexer: the bookkeeping pair stays true; on exit the pending rune
+    is the end token -/
+theorem value_loop (ae : Bool) (endTok : Option Nat) (T : List Tok) (fuel : Nat) :
+    ∀ (l : L) (r : Option Nat) (esc : Bool) (a b p : Nat) (l' : L) (a' b' : Nat),
+    Pend l r p → Tr l.inp T p a b → lexValueLoop ae endTok fuel l r esc a b = some (l', a', b') →
+    l'.core = l.core ∧ ∃ p', Pend l' endTok p' ∧ Tr l.inp T p' a' b' := by
   induction fuel with
-  | zero => intro l0 l r h; simpa [lexTextBlock.loop] using h.finish
+  | zero => intro l r esc a b p l' a' b' _ _ h; simp [lexValueLoop] at h
+  | succ n ih =>
+    intro l r esc a b p l' a' b' hp htr h
+    simp only [lexValueLoop] at h
+    obtain ⟨f1, f2, f3, f4⟩ := hp.facts
+    split at h
+    · split at h
+      · simp at h
+      · obtain ⟨np, nc⟩ := next_spec l f2
+        obtain ⟨c1, _, _, _, _⟩ := core_fields nc
+        have := ih _ _ _ _ _ l.pos l' a' b' np (by rw [c1]; exact htr.step f1 f3 f4) h
+        rw [c1] at this
+        exact ⟨this.1.trans nc, this.2⟩
+    · rename_i hcond
+      simp only [Option.some.injEq, Prod.mk.injEq] at h
+      obtain ⟨rfl, rfl, rfl⟩ := h
+      have hr : r = endTok := by
+        cases ae <;> simp at hcond
+        · exact hcond
+        · exact hcond.1
+      subst hr
+      exact ⟨rfl, p, hp, htr⟩
+
+theorem block_loop (T : List Tok) (fuel : Nat) :
+    ∀ (l : L) (r : Option Nat) (a b p : Nat) (l' : L) (a' b' : Nat),
+    Pend l r p → Tr l.inp T p a b → blockLoop fuel l r a b = some (l', a', b') →
+    l'.core = l.core ∧ l'.peek 1 = some 47 ∧ ∃ p', Pend l' (some 42) p' ∧ Tr l.inp T p' a' b' := by
+  induction fuel with
+  | zero => intro l r a b p l' a' b' _ _ h; simp [blockLoop] at h
+  | succ n ih =>
+    intro l r a b p l' a' b' hp htr h
+    simp only [blockLoop] at h
+    obtain ⟨f1, f2, f3, f4⟩ := hp.facts
+    split at h
+    · split at h
+      · simp at h
+      · obtain ⟨np, nc⟩ := next_spec l f2
+        obtain ⟨c1, _, _, _, _⟩ := core_fields nc
+        have := ih _ _ _ _ l.pos l' a' b' np (by rw [c1]; exact htr.step f1 f3 f4) h
+        rw [c1] at this
+        exact ⟨this.1.trans nc, this.2⟩
+    · rename_i hcond
+      simp only [Option.some.injEq, Prod.mk.injEq] at h
+      obtain ⟨rfl, rfl, rfl⟩ := h
+      simp only [Bool.or_eq_true, bne_iff_ne, ne_eq, not_or, Decidable.not_not] at hcond
+      obtain ⟨hr, hpk⟩ := hcond
+      subst hr
+      exact ⟨rfl, hpk, p, hp, htr⟩
+
+theorem hash_loop (fuel : Nat) : ∀ (l0 l : L) (r : Option Nat), Scan l0 l r →
+    let res := hashLoop fuel l r
+    res.1.core = l0.core ∧ ∃ p, Pend res.1 res.2 p ∧ l0.pos ≤ p ∧ NoNl l0.inp l0.pos p := by
+  induction fuel with
+  | zero => intro l0 l r h; simpa [hashLoop] using ⟨h.core, h.ex⟩
   | succ n ih =>
     intro l0 l r h
-    simp only [lexTextBlock.loop]
+    simp only [hashLoop]
     split
-    · simpa using h.finish
-    · rename_i hb
-      obtain ⟨c, rfl, hc10⟩ := blank_ne10 (by simpa using hb)
-      have hfin : Blk l0 (l.backup 0) := by simpa using h.finish
-      split
-      · simpa using hfin
-      · split
-        · simpa using hfin
-        · exact ih _ _ _ (h.next hc10)
-
-theorem lexTextBlock_blk (l : L) (hle : l.pos ≤ l.inp.size) : Blk l (lexTextBlock l) := by
-  obtain ⟨np, nc⟩ := next_spec l hle
-  have h0 : Scan l (l.next).1 (l.next).2 := ⟨nc, l.pos, np, Nat.le_refl _, noNl_empty _ _⟩
-  simp only [lexTextBlock]
-  split
-  · rename_i hs
-    have hcl := isSym_clean hs
-    obtain ⟨c, hr, hc10⟩ := runeKey_clean (r := (l.next).2) (fun b hb => hcl b (List.mem_append_left _ hb))
-    obtain ⟨d, hd, hd10⟩ := runeKey_clean (r := (l.next).1.peek 1) (fun b hb => hcl b (List.mem_append_right _ hb))
-    obtain ⟨f1, f2, f3, f4⟩ := np.facts
-    have b1 : Blk l (l.next).1 := ⟨nc, f1, f2, by
-      have hi := (core_fields nc).1
-      rw [← hi]; apply f4; rw [hr]; simpa using hc10⟩
-    exact b1.trans (next_blk b1.le hd hd10).1
-  · split
-    · rename_i hs
-      obtain ⟨c, hr, hc10⟩ := runeKey_clean (isSym_clean hs)
-      obtain ⟨f1, f2, f3, f4⟩ := np.facts
-      exact ⟨nc, f1, f2, by
-        have hi := (core_fields nc).1
-        rw [← hi]; apply f4; rw [hr]; simpa using hc10⟩
-    · exact text_loop _ l _ _ h0
+    · rename_i hc
+      simp only [Bool.and_eq_true, bne_iff_ne, ne_eq] at hc
+      cases r with
+      | none => exact absurd rfl hc.2
+      | some c => exact ih _ _ _ (h.next (by intro h'; apply hc.1; rw [h']))
+    · exact ⟨h.core, h.ex⟩
 
 end Ecal.Lex
